@@ -136,6 +136,21 @@ def run_programs(gw, rng, big=False):
         T.append(["concurrent", k, [g[1] for g in got], all(g[2] == bytes([65 + k]) * 150000 for g in got)])
     ch.send(None)
     ch.waitclose(10)
+    # 10. items still in flight when the gateway is told to exit are delivered (the remote code keeps running for a moment)
+    ch = gw.remote_exec("import time\nchannel.send('before')\nchannel.receive()\ntime.sleep(0.4)\nchannel.send('after-exit-1')\nchannel.send(b'q' * 200000)\nchannel.send('after-exit-2')")
+    first = ch.receive(10)
+    ch.send("go")
+    gw.exit()
+    late = []
+    try:
+        while True:
+            x = ch.receive(10)
+            late.append(x if isinstance(x, str) else len(x))
+    except EOFError:
+        late.append("EOF")
+    except Exception as e:  # noqa: BLE001
+        late.append(type(e).__name__)
+    T.append(["after-exit", first, late])
     return T
 
 
